@@ -418,30 +418,26 @@ theorem ds_fresh (name size : Nat) (xs : List Seg) (dr : Disk) (hs : SRs xs dr) 
   exact ⟨rfl, rfl, rfl, by simp [Seg.fresh, Seg.n, FileSt.zero], rfl, rfl, rfl,
     Nat.le_refl _, Nat.le_refl _, Nat.zero_le _⟩
 
-/-- The directory has a zero length file at its head (between `create` and `truncate`). -/
-def ZeroLen (d : Disk) : Prop := ∃ q rest, d = (q, FileSt.zero 0) :: rest
+@[simp] theorem run_tmpCreate (d : Disk) (n : Nat) : Step.run d (.tmpCreate n) = d := rfl
+@[simp] theorem run_tmpTruncate (d : Disk) (n k : Nat) : Step.run d (.tmpTruncate n k) = d := rfl
+@[simp] theorem run_tmpZero16 (d : Disk) (n : Nat) : Step.run d (.tmpZero16 n) = d := rfl
+@[simp] theorem run_tmpFsync (d : Disk) (n : Nat) : Step.run d (.tmpFsync n) = d := rfl
 
-/-- `createSegment name` on top of a sealed chain: the four intermediate states. -/
+/-- `createSegment name` on top of a sealed chain: only the final rename changes the directory. -/
 theorem create_top {x : Seg} {xs : List Seg} {d : Disk} (h : DS x xs x.n x.n x.n d)
     (name size : Nat) (hn : x.prev < name) :
-    Step.run d (.create name) = (name, FileSt.zero 0) :: d ∧
-    Step.run ((name, FileSt.zero 0) :: d) (.truncate name size) = (name, FileSt.zero size) :: d ∧
-    Step.run ((name, FileSt.zero size) :: d) (.zero16 name) = (name, FileSt.zero size) :: d ∧
-    Step.run ((name, FileSt.zero size) :: d) (.fsync name) = (name, FileSt.zero size) :: d ∧
+    Step.run d (.rename name size) = (name, FileSt.zero size) :: d ∧
     DS (Seg.fresh name size) (x :: xs) 0 0 0 ((name, FileSt.zero size) :: d) := by
   obtain ⟨⟨q, f⟩, dr, rfl, hf, hs⟩ := h
   have hq : q = x.prev := hf.name
   subst hq
-  refine ⟨by simp [Step.run, ins, hn], by simp [Step.run, upd], rfl, by simp [Step.run, upd, FileSt.zero], ?_⟩
+  refine ⟨by simp [Step.run, ins, hn], ?_⟩
   exact ds_fresh name size (x :: xs) _ ⟨hf, hs⟩
 
 theorem create_empty (name size : Nat) :
-    Step.run [] (.create name) = [(name, FileSt.zero 0)] ∧
-    Step.run [(name, FileSt.zero 0)] (.truncate name size) = [(name, FileSt.zero size)] ∧
-    Step.run [(name, FileSt.zero size)] (.zero16 name) = [(name, FileSt.zero size)] ∧
-    Step.run [(name, FileSt.zero size)] (.fsync name) = [(name, FileSt.zero size)] ∧
+    Step.run [] (.rename name size) = [(name, FileSt.zero size)] ∧
     DS (Seg.fresh name size) [] 0 0 0 [(name, FileSt.zero size)] :=
-  ⟨rfl, by simp [Step.run, upd], rfl, by simp [Step.run, upd, FileSt.zero], ds_fresh name size [] [] trivial⟩
+  ⟨rfl, ds_fresh name size [] [] trivial⟩
 
 /-! ## Reachable crash states of a script -/
 
@@ -580,7 +576,7 @@ def GoodDS (s : SegLog) (post : AbsLog) (d' : Disk) : Prop :=
     ∀ h, (h = hd ∨ h = hv) → WR s post ⟨chainPrev x.prev ys, absEntries ys ++ x.entries.take h⟩
 
 def CrashState (s : SegLog) (post : AbsLog) (d' : Disk) : Prop :=
-  ZeroLen d' ∨ (d' = [] ∧ WR s post ⟨0, []⟩) ∨ GoodDS s post d'
+  (d' = [] ∧ WR s post ⟨0, []⟩) ∨ GoodDS s post d'
 
 theorem trunc_ok {x : Seg} {h : Nat} (hx : x.size + 8 * (x.n + 2) ≤ x.cap) (hh : h ≤ x.n) :
     SegOK (trunc x h) := by
@@ -593,14 +589,13 @@ theorem powerImg_nil {img : Img} (h : PowerImg [] img) : img = [] := by
   | nil => rfl
   | cons a b => simp [PowerImg] at h
 
-/-- Every power-loss image of a non-zero-length crash state reopens, to an `Inv` log meeting the
+/-- Every power-loss image of a crash state reopens, to an `Inv` log meeting the
 crash specification, and the directory is unchanged except that an empty one gets `0.log`. -/
 theorem crashState_reopen {s : SegLog} (h : Inv s) {post : AbsLog} {d' : Disk}
-    (hc : CrashState s post d') (hz : ¬ ZeroLen d') {img : Img} (hp : PowerImg d' img)
+    (hc : CrashState s post d') {img : Img} (hp : PowerImg d' img)
     {ss : Nat} (hss : 1024 ≤ ss) :
     ∃ s'' img', reopen img ss = .ok (s'', img') ∧ Inv s'' ∧ CrashSpec s post (abs s'') := by
-  rcases hc with hc | ⟨rfl, hw⟩ | ⟨x, ys, hv, hd, M, hds, hx, hch, hw⟩
-  · exact absurd hc hz
+  rcases hc with ⟨rfl, hw⟩ | ⟨x, ys, hv, hd, M, hds, hx, hch, hw⟩
   · rw [powerImg_nil hp, reopen_nil]
     refine ⟨_, _, rfl, ⟨fresh_ok (by omega), trivial, hss⟩, ?_⟩
     exact wr_spec h hw
@@ -863,7 +858,7 @@ theorem append_crash {s : SegLog} {d : Disk} (h : Inv s) (hr : Rep s d) (b : Byt
       intro d' hreach
       rw [reach_nil] at hreach
       rw [hreach]
-      exact Or.inr (Or.inr (rep_good h hr post))
+      exact Or.inr ((rep_good h hr post))
     · simp only [hav, hn, if_true, if_false]
       obtain ⟨c1, c2, _⟩ := commit_crash h hr post
       generalize hss : (if b.length + 24 > s.segmentSize then b.length + 24 else s.segmentSize) = ss'
@@ -874,7 +869,7 @@ theorem append_crash {s : SegLog} {d : Disk} (h : Inv s) (hr : Rep s d) (b : Byt
         simpa using ds_congr (x' := s.last.sync) c2 (by simp) (by simp) (by simp)
       have hlt : s.last.sync.prev < s.lastIndex := by
         simp [SegLog.lastIndex, Seg.lastIndex]; omega
-      obtain ⟨t1, t2, t3, t4, t5⟩ := create_top c2' s.lastIndex ss' hlt
+      obtain ⟨t1, t5⟩ := create_top c2' s.lastIndex ss' hlt
       have hfz := fresh_ok (p := s.lastIndex) hss16
       have g5 : GoodDS s post ((s.lastIndex, FileSt.zero ss') :: runSteps d (commitSteps s.lastIndex s.segs)) :=
         fresh_top_good h (by omega) post rfl hfz.1 t5
@@ -888,22 +883,25 @@ theorem append_crash {s : SegLog} {d : Disk} (h : Inv s) (hr : Rep s d) (b : Byt
       · intro d' hreach
         rw [reach_append, reach_append] at hreach
         rcases hreach with (hreach | hreach) | hreach
-        · exact Or.inr (Or.inr (c1 d' hreach))
-        · simp only [createSteps, reach_cons, reach_nil, t1, t2, t3, t4] at hreach
-          rcases hreach with rfl | rfl | rfl | rfl | rfl
-          · exact Or.inr (Or.inr (c1 _ (reach_all _ _)))
-          · exact Or.inl ⟨_, _, rfl⟩
-          · exact Or.inr (Or.inr g5)
-          · exact Or.inr (Or.inr g5)
-          · exact Or.inr (Or.inr g5)
+        · exact Or.inr ((c1 d' hreach))
+        · simp only [createSteps, reach_cons, reach_nil, run_tmpCreate, run_tmpTruncate, run_tmpZero16,
+            run_tmpFsync, t1] at hreach
+          rcases hreach with rfl | rfl | rfl | rfl | rfl | rfl
+          · exact Or.inr (c1 _ (reach_all _ _))
+          · exact Or.inr (c1 _ (reach_all _ _))
+          · exact Or.inr (c1 _ (reach_all _ _))
+          · exact Or.inr (c1 _ (reach_all _ _))
+          · exact Or.inr (c1 _ (reach_all _ _))
+          · exact Or.inr g5
         · rw [runSteps_append] at hreach
-          simp only [createSteps, runSteps, t1, t2, t3, t4, reach_cons, reach_nil] at hreach
+          simp only [createSteps, runSteps, run_tmpCreate, run_tmpTruncate, run_tmpZero16, run_tmpFsync, t1,
+            reach_cons, reach_nil] at hreach
           rcases hreach with rfl | rfl
-          · exact Or.inr (Or.inr g5)
-          · refine Or.inr (Or.inr (fresh_top_good h (by omega) post rfl hfa.1 ?_))
+          · exact Or.inr g5
+          · refine Or.inr (fresh_top_good h (by omega) post rfl hfa.1 ?_)
             simpa [Seg.fresh, Seg.n] using hw
       · rw [runSteps_append, runSteps_append]
-        simp only [createSteps, runSteps, t1, t2, t3, t4]
+        simp only [createSteps, runSteps, run_tmpCreate, run_tmpTruncate, run_tmpZero16, run_tmpFsync, t1]
         refine ⟨0, by simp [Seg.append, Seg.fresh], ?_⟩
         rw [commit_eq h]
         simpa [Seg.fresh, Seg.n, SegLog.lastIndex, Seg.lastIndex] using hw
@@ -915,8 +913,8 @@ theorem append_crash {s : SegLog} {d : Disk} (h : Inv s) (hr : Rep s d) (b : Byt
     · intro d' hreach
       simp only [reach_cons, reach_nil] at hreach
       rcases hreach with rfl | rfl
-      · exact Or.inr (Or.inr (rep_good h ⟨c, hc, hds⟩ post))
-      · refine Or.inr (Or.inr ?_)
+      · exact Or.inr ((rep_good h ⟨c, hc, hds⟩ post))
+      · refine Or.inr (?_)
         refine good_sub h (pre := []) (x0 := s.last) (ys := s.older) (post' := []) (by simp [SegLog.segs])
           (x := s.last.append b) rfl (append_ok h.1 (by omega)).1 hw ?_ ?_
         · intro k hk
@@ -1007,9 +1005,9 @@ theorem removeLTE_crash {s : SegLog} {d : Disk} (h : Inv s) (hr : Rep s d) (i : 
   · intro d' hreach
     rw [reach_append] at hreach
     rcases hreach with hreach | hreach
-    · exact Or.inr (Or.inr (c1 d' hreach))
+    · exact Or.inr ((c1 d' hreach))
     · obtain ⟨m, hm⟩ := p1 d' hreach
-      refine Or.inr (Or.inr ?_)
+      refine Or.inr (?_)
       have hsegs : s.segs = [] ++ s.last :: ((kept ++ (rd.drop m).reverse) ++ (rd.take m).reverse) := by
         simp only [SegLog.segs, List.nil_append, List.cons.injEq, true_and]
         rw [e1, List.append_assoc, ← List.reverse_append, List.take_append_drop]
@@ -1080,7 +1078,7 @@ theorem reset_crash {s : SegLog} {d : Disk} (h : Inv s) (hr : Rep s d) (j : Nat)
   obtain ⟨q1, q2⟩ := sync_phase p2 hc hcn
   -- phase 3/4: remove it, create the new one
   have r3 := ds_remove_only q2
-  obtain ⟨t1, t2, t3, t4, t5⟩ := create_empty j s.segmentSize
+  obtain ⟨t1, t5⟩ := create_empty j s.segmentSize
   have gfresh : GoodDS s (abs (s.reset j)) [(j, FileSt.zero s.segmentSize)] :=
     fresh_only_good s hpost (by omega) rfl t5
   have good_last : ∀ {m hv hd M d'}, DS s.last ([] ++ ((s.older.reverse).drop m).reverse) hv hd M d' →
@@ -1101,11 +1099,11 @@ theorem reset_crash {s : SegLog} {d : Disk} (h : Inv s) (hr : Rep s d) (j : Nat)
     rw [reach_append, reach_append, reach_append] at hreach
     rcases hreach with ((hreach | hreach) | hreach) | hreach
     · obtain ⟨m, hm⟩ := p1 d' hreach
-      exact Or.inr (Or.inr (good_last hm hcn hcn))
+      exact Or.inr ((good_last hm hcn hcn))
     · obtain ⟨hv, hd, M, hm, e1, e2⟩ := q1 d' hreach
       have hm' : DS s.last ([] ++ ((s.older.reverse).drop s.older.reverse.length).reverse) hv hd M d' := by
         rw [hz]; exact hm
-      exact Or.inr (Or.inr (good_last hm' (by rcases e1 with r | r <;> omega) (by rcases e2 with r | r <;> omega)))
+      exact Or.inr ((good_last hm' (by rcases e1 with r | r <;> omega) (by rcases e2 with r | r <;> omega)))
     · rw [runSteps_append] at hreach
       simp only [reach_cons, reach_nil] at hreach
       rcases hreach with rfl | rfl
@@ -1113,21 +1111,22 @@ theorem reset_crash {s : SegLog} {d : Disk} (h : Inv s) (hr : Rep s d) (j : Nat)
             s.last.n s.last.n s.last.n (runSteps (runSteps d
               (List.map Step.remove (List.map (fun x => x.prev) s.older.reverse))) s.last.syncSteps) := by
           rw [hz]; exact q2
-        exact Or.inr (Or.inr (good_last hm' (Nat.le_refl _) (Nat.le_refl _)))
+        exact Or.inr ((good_last hm' (Nat.le_refl _) (Nat.le_refl _)))
       · rw [r3]
-        exact Or.inr (Or.inl ⟨rfl, wr_empty hpost rfl⟩)
+        exact Or.inl (⟨rfl, wr_empty hpost rfl⟩)
     · rw [runSteps_append, runSteps_append] at hreach
-      simp only [runSteps, r3, createSteps, reach_cons, reach_nil, t1, t2, t3, t4] at hreach
-      rcases hreach with rfl | rfl | rfl | rfl | rfl
-      · exact Or.inr (Or.inl ⟨rfl, wr_empty hpost rfl⟩)
-      · exact Or.inl ⟨_, _, rfl⟩
-      · exact Or.inr (Or.inr gfresh)
-      · exact Or.inr (Or.inr gfresh)
-      · exact Or.inr (Or.inr gfresh)
+      simp only [runSteps, r3, createSteps, reach_cons, reach_nil, run_tmpCreate, run_tmpTruncate,
+        run_tmpZero16, run_tmpFsync, t1] at hreach
+      rcases hreach with rfl | rfl | rfl | rfl | rfl | rfl
+      · exact Or.inl ⟨rfl, wr_empty hpost rfl⟩
+      · exact Or.inl ⟨rfl, wr_empty hpost rfl⟩
+      · exact Or.inl ⟨rfl, wr_empty hpost rfl⟩
+      · exact Or.inl ⟨rfl, wr_empty hpost rfl⟩
+      · exact Or.inl ⟨rfl, wr_empty hpost rfl⟩
+      · exact Or.inr gfresh
   · rw [runSteps_append, runSteps_append, runSteps_append]
-    simp only [runSteps, r3, createSteps, t1, t2, t3, t4]
+    simp only [runSteps, r3, createSteps, run_tmpCreate, run_tmpTruncate, run_tmpZero16, run_tmpFsync, t1]
     exact ⟨0, rfl, t5⟩
-
 
 /-! ### removeGTE -/
 
@@ -1228,7 +1227,6 @@ theorem lower_phase {x : Seg} {ys : List Seg} {d : Disk} (hds : DS x ys x.n x.n 
       exact ⟨x.n, hsy, hds⟩
 
 theorem rgte_phase {s0 : SegLog} (h0 : Inv s0) (i ss : Nat) (P : Disk → Prop)
-    (hZ : ∀ d', ZeroLen d' → P d')
     (hE : i ≤ s0.prevIndex → P [])
     (hF : i ≤ s0.prevIndex → ∀ d', DS (Seg.fresh (i - 1) ss) [] 0 0 0 d' → P d')
     (hG : ∀ pre x ys hv hd M d', s0.segs = pre ++ x :: ys → DS x ys hv hd M d' →
@@ -1274,19 +1272,22 @@ theorem rgte_phase {s0 : SegLog} (h0 : Inv s0) (i ss : Nat) (P : Disk → Prop)
       · rw [if_pos h1, if_neg h2, if_pos h1, if_neg h2]
         have hip : i ≤ s0.prevIndex := by omega
         have r3 := ds_remove_only hds
-        obtain ⟨t1, t2, t3, t4, t5⟩ := create_empty (i - 1) ss
+        obtain ⟨t1, t5⟩ := create_empty (i - 1) ss
         rw [syncSteps_clean hsy]
         constructor
         · intro d' hr
-          simp only [List.nil_append, List.cons_append, createSteps, reach_cons, reach_nil, r3, t1, t2, t3, t4] at hr
-          rcases hr with rfl | rfl | rfl | rfl | rfl | rfl
+          simp only [List.nil_append, List.cons_append, createSteps, reach_cons, reach_nil, r3,
+            run_tmpCreate, run_tmpTruncate, run_tmpZero16, run_tmpFsync, t1] at hr
+          rcases hr with rfl | rfl | rfl | rfl | rfl | rfl | rfl
           · exact hGd
           · exact hE hip
-          · exact hZ _ ⟨_, _, rfl⟩
+          · exact hE hip
+          · exact hE hip
+          · exact hE hip
+          · exact hE hip
           · exact hF hip _ t5
-          · exact hF hip _ t5
-          · exact hF hip _ t5
-        · simp only [List.nil_append, List.cons_append, createSteps, runSteps, r3, t1, t2, t3, t4]
+        · simp only [List.nil_append, List.cons_append, createSteps, runSteps, r3, run_tmpCreate,
+            run_tmpTruncate, run_tmpZero16, run_tmpFsync, t1]
           exact ⟨0, rfl, t5⟩
     · rw [if_neg h1, if_neg h1]
       exact ⟨within _ (Or.inl ⟨rfl, by omega⟩), (lower_phase hds hsy _).2⟩
@@ -1356,12 +1357,11 @@ theorem removeGTE_crash {s : SegLog} {d : Disk} (h : Inv s) (hr : Rep s d) (i : 
     unfold AbsLog.removeGTE
     rw [if_pos (by rw [abs_prev]; omega)]
   obtain ⟨p1, p2⟩ := rgte_phase h0 i s.segmentSize (CrashState s (abs (s.removeGTE i)))
-    (fun d' hz => Or.inl hz)
-    (fun hi => Or.inr (Or.inl ⟨rfl, wr_empty (hpe hi) rfl⟩))
-    (fun hi d' hds => Or.inr (Or.inr (fresh_only_good s (hpe hi) (by have := h.2.2; omega) rfl hds)))
+    (fun hi => Or.inl (⟨rfl, wr_empty (hpe hi) rfl⟩))
+    (fun hi d' hds => Or.inr ((fresh_only_good s (hpe hi) (by have := h.2.2; omega) rfl hds)))
     (by
       intro pre x ys hv hd M d' hsegs hds hk
-      refine Or.inr (Or.inr ?_)
+      refine Or.inr (?_)
       have hsegs' : s.commit.segs = pre ++ x :: (ys ++ []) := by simpa using hsegs
       obtain ⟨f1, f2, f3, f4, _⟩ := subchain_facts h0 hsegs
       refine good_sub_gen h0 habs hsegs' rfl f1.1 hds (fun k hk' => ⟨rfl, (hk k hk').1⟩) ?_
@@ -1378,7 +1378,7 @@ theorem removeGTE_crash {s : SegLog} {d : Disk} (h : Inv s) (hr : Rep s d) (i : 
   · intro d' hreach
     rw [reach_append] at hreach
     rcases hreach with hreach | hreach
-    · exact Or.inr (Or.inr (c1 d' hreach))
+    · exact Or.inr ((c1 d' hreach))
     · exact p1 d' hreach
   · rw [runSteps_append]
     obtain ⟨c, e1, e2⟩ := p2
@@ -1390,7 +1390,7 @@ theorem closeOpen_crash {s : SegLog} {d : Disk} (h : Inv s) (hr : Rep s d) (ss :
     (∀ d', Reach (script s (.closeOpen ss)) d d' → CrashState s post d') ∧
     Rep (s.closeOpen ss) (runSteps d (script s (.closeOpen ss))) := by
   obtain ⟨c1, _, c3⟩ := commit_crash h hr post
-  refine ⟨fun d' hreach => Or.inr (Or.inr (c1 d' hreach)), ?_⟩
+  refine ⟨fun d' hreach => Or.inr ((c1 d' hreach)), ?_⟩
   obtain ⟨c, e1, e2⟩ := c3
   exact ⟨c, e1, e2⟩
 
@@ -1403,10 +1403,10 @@ theorem op_crash {s : SegLog} {d : Disk} (h : Inv s) (hr : Rep s d) (op : Op) :
   | append b => exact append_crash h hr b _
   | commitN n =>
     obtain ⟨c1, c2⟩ := commitN_crash h hr n (abs (s.run [.commitN n]))
-    exact ⟨fun d' hreach => Or.inr (Or.inr (c1 d' hreach)), c2⟩
+    exact ⟨fun d' hreach => Or.inr ((c1 d' hreach)), c2⟩
   | commit =>
     obtain ⟨c1, _, c3⟩ := commit_crash h hr (abs (s.run [.commit]))
-    exact ⟨fun d' hreach => Or.inr (Or.inr (c1 d' hreach)), c3⟩
+    exact ⟨fun d' hreach => Or.inr ((c1 d' hreach)), c3⟩
   | removeLTE i => exact removeLTE_crash h hr i
   | removeGTE i => exact removeGTE_crash h hr i
   | reset j => exact reset_crash h hr j
@@ -1495,13 +1495,12 @@ theorem srs_clean {xs : List Seg} : ∀ {dr : Disk}, SRs xs dr → ∀ qf ∈ dr
       · exact fr_clean hy k (by rw [hy.vh, hy.dh] at hk; exact hk)
       · exact ih hys qf hq k hk
 
-/-- In every crash state that is not the zero-length one, whatever header value a reopen may read
+/-- In every crash state, whatever header value a reopen may read
 from a file, every unit below it was covered by an msync (durable = volatile). -/
 theorem crashState_clean {s : SegLog} {post : AbsLog} {d' : Disk} (hc : CrashState s post d')
-    (hz : ¬ ZeroLen d') : ∀ qf ∈ d', ∀ k, (k < qf.2.vhdr ∨ k < qf.2.dhdr) →
+    : ∀ qf ∈ d', ∀ k, (k < qf.2.vhdr ∨ k < qf.2.dhdr) →
       ∃ b, qf.2.dunits[k]? = some b ∧ qf.2.vunits[k]? = some b := by
-  rcases hc with hc | ⟨rfl, _⟩ | ⟨x, ys, hv, hd, M, ⟨qf0, dr, rfl, hf, hs⟩, _, _, _⟩
-  · exact absurd hc hz
+  rcases hc with ⟨rfl, _⟩ | ⟨x, ys, hv, hd, M, ⟨qf0, dr, rfl, hf, hs⟩, _, _, _⟩
   · intro qf hq; simp at hq
   · intro qf hq k hk
     rcases List.mem_cons.1 hq with rfl | hq
